@@ -8,7 +8,8 @@ from .. import mir
 from ..common import Instance, norm_id, load_table
 
 CARRY = re.compile(r"^(adc|sbb|mac|carrying_|borrowing_|conditional_adc|conditional_sbb|adc_assign|sbb_assign|"
-                   r"add_mul_carry|overflowing_add|overflowing_sub|adc_mul_limbs|impl_longa)")
+                   r"add_mul_carry|overflowing_add|overflowing_sub|overflowing_neg|adc_mul_limbs|impl_longa|"
+                   r"shl1_assign$|overflowing_shl1$|shl1$|shr1$|shr1_with_carry$)")
 CARRY_TYS = ("limb::Limb", "u64", "subtle::Choice", "const_choice::ConstChoice")
 
 
@@ -56,15 +57,129 @@ def reads_of(view, local):
     return out
 
 
-def run(facts, report, config, scope_prefix=("modular::", "<modular::")):
-    tab = load_table("c08.toml")
+def _stmt_reads(s, local):
+    """field paths of `local` read by statement s, and whether the read is a plain copy into a bare local"""
+    out = []
+
+    def op(o, plain_to=None):
+        if o[0] in ("c", "m") and o[1][0] == local:
+            out.append((mir.field_path(o[1][1]), plain_to))
+
+    if s[0] != "a":
+        return out
+    rv = s[2]
+    k = rv[0]
+    dst = s[1]
+    if k == "use":
+        op(rv[1], dst[0] if not dst[1] else None)
+    elif k == "repeat":
+        op(rv[1])
+    elif k == "cast":
+        op(rv[2])
+    elif k == "bin":
+        op(rv[2])
+        op(rv[3])
+    elif k == "un":
+        op(rv[2])
+    elif k == "agg":
+        for o in rv[4]:
+            op(o)
+    elif k in ("ref", "rawptr"):
+        if rv[2][0] == local:
+            out.append((mir.field_path(rv[2][1]), None))
+    elif k in ("cfd", "discr"):
+        if rv[1][0] == local:
+            out.append((mir.field_path(rv[1][1]), None))
+    # a projected store through the local (index operand etc.)
+    for pe in dst[1]:
+        if isinstance(pe, list) and pe and pe[0] == "i" and pe[1] == local:
+            out.append(((), None))
+    return out
+
+
+def _compatible(read_path, want):
+    n = min(len(read_path), len(want))
+    return tuple(read_path[:n]) == tuple(want[:n])
+
+
+def value_consumed(view, start, local, path, depth=0, seen=None):
+    """Is the value stored in `local`.`path` by the definition just before position `start` = (bb, stmt index)
+    read by anything but a chain of plain copies that are themselves never read, before being overwritten?
+    (reaching-definition walk over the CFG, cleanup blocks ignored)"""
+    if depth > 6:
+        return True
+    seen = set() if seen is None else seen
+    work = [start]
+    visited = set()
+    while work:
+        bi, si = work.pop()
+        if (bi, si) in visited:
+            continue
+        visited.add((bi, si))
+        bb = view.blocks[bi]
+        if bb["cleanup"]:
+            continue
+        killed = False
+        stmts = bb["stmts"]
+        for j in range(si, len(stmts)):
+            s = stmts[j]
+            for rp, plain_to in _stmt_reads(s, local):
+                if not _compatible(rp, path):
+                    continue
+                if plain_to is not None and plain_to != 0 and len(rp) >= len(path):
+                    if (plain_to, bi, j) in seen:
+                        continue
+                    seen.add((plain_to, bi, j))
+                    if value_consumed(view, (bi, j + 1), plain_to, (), depth + 1, seen):
+                        return True
+                else:
+                    return True
+            if s[0] == "a" and s[1][0] == local:
+                wp = mir.field_path(s[1][1])
+                if all(isinstance(pe, list) and pe[0] == "f" for pe in s[1][1]) and tuple(wp) == tuple(path[:len(wp)]):
+                    killed = True
+                    break
+        if killed:
+            continue
+        t = bb["term"]
+        k = t["k"]
+        if k == "call":
+            for a in t["args"]:
+                if a[0] in ("c", "m") and a[1][0] == local and _compatible(mir.field_path(a[1][1]), path):
+                    return True
+            if t["dst"][0] == local and not t["dst"][1]:
+                continue
+        elif k == "switch":
+            o = t["op"]
+            if o[0] in ("c", "m") and o[1][0] == local:
+                return True
+        elif k == "ret":
+            if local == 0:
+                return True
+            continue
+        elif k in ("drop",):
+            pass
+        for nb in view.succ[bi]:
+            if not view.blocks[nb]["cleanup"]:
+                work.append((nb, 0))
+    return False
+
+
+def run(facts, report, config, scope_prefix=("modular::", "<modular::"), exclude_prefix=(), table="c08.toml",
+        auto_wrapping=False, counter="carry_returning_calls_in_modular"):
+    """Reviewed drops are keyed by (function, callee) with a count `drops` (default 1): an edit that adds or
+    reorders *consumed* carry calls changes nothing; one that drops a further carry exceeds the count."""
+    tab = load_table(table)
     reviewed = {e["key"]: e for e in tab.get("reviewed_carry", [])}
     used = set()
-    ordn = {}
     for b in facts.fn_bodies():
-        if not b["id"].startswith(scope_prefix):
+        if scope_prefix is not None and not b["id"].startswith(scope_prefix):
+            continue
+        if exclude_prefix and b["id"].startswith(exclude_prefix):
             continue
         view = mir.BodyView(b)
+        dropped = {}
+        nseg = {}
         for bi, t in view.calls():
             if view.blocks[bi]["cleanup"]:
                 continue
@@ -81,28 +196,39 @@ def run(facts, report, config, scope_prefix=("modular::", "<modular::")):
                     carry_path = (str(len(comps) - 1),)
             if carry_path is None:
                 continue
-            report.count("carry_returning_calls_in_modular")
+            report.count(counter)
             k0 = "carry|%s|%s" % (norm_id(b["id"]), seg)
-            n = ordn.get(k0, 0)
-            ordn[k0] = n + 1
-            key = "%s|%d" % (k0, n)
-            rd = reads_of(view, t["dst"][0])
-            used_carry = () in rd or any(p[:len(carry_path)] == carry_path for p in rd) if carry_path else bool(rd)
-            if carry_path == ():
-                used_carry = bool(rd)
+            n = nseg.get(k0, 0)
+            nseg[k0] = n + 1
+            if t["t"] is None:
+                continue
+            used_carry = value_consumed(view, (t["t"], 0), t["dst"][0], carry_path)
             if used_carry:
-                report.add(Instance(key, "carry", "ok", "auto: the carry/borrow result of %s is consumed" % seg, t["s"],
+                report.add(Instance("%s|call%d" % (k0, n), "carry", "ok",
+                                    "auto: the carry/borrow result of %s is consumed" % seg, t["s"],
                                     {"body": b["id"]}), config)
                 continue
-            e = reviewed.get(key)
+            if auto_wrapping and ("wrapping" in (b.get("name") or "") or "wrapping::Wrapping<" in (b.get("impl_self") or "")):
+                report.add(Instance("%s|call%d" % (k0, n), "carry", "ok",
+                                    "auto: wrapping form — discarding the carry/borrow is its definition",
+                                    t["s"], {"body": b["id"]}), config)
+                continue
+            dropped.setdefault(k0, []).append((seg, t["s"]))
+        for k0, sites in dropped.items():
+            e = reviewed.get(k0)
+            allowed = int(e.get("drops", 1)) if e is not None else 0
             if e is not None:
-                used.add(key)
-                report.add(Instance(key, "carry", "reviewed", "reviewed: " + e["reason"], t["s"], {"body": b["id"]}), config)
+                used.add(k0)
+            if len(sites) <= allowed:
+                report.add(Instance(k0, "carry", "reviewed", "reviewed (%d dropped, %d reviewed): %s" % (
+                    len(sites), allowed, e["reason"]), sites[0][1], {"body": b["id"], "sites": [s for _, s in sites]}), config)
             else:
-                report.add(Instance(key, "carry", "violation",
-                                    "the carry/borrow returned by `%s` is dropped in `%s`: the following reduction works "
-                                    "with a stale or missing carry (wrong when the discarded carry is non-zero)" % (
-                                        seg, b["id"]), t["s"], {"body": b["id"]}), config)
+                seg = sites[0][0]
+                report.add(Instance(k0, "carry", "violation",
+                                    "the carry/borrow returned by `%s` is dropped at %d site(s) in `%s` (%d reviewed): the "
+                                    "following steps work with a stale or missing carry (wrong when the discarded carry is "
+                                    "non-zero)" % (seg, len(sites), b["id"], allowed), sites[-1][1],
+                                    {"body": b["id"], "sites": [s for _, s in sites]}), config)
     for k in reviewed:
         if k not in used:
-            report.stale.append({"table": "c08.toml", "key": k, "config": config})
+            report.stale.append({"table": table, "key": k, "config": config})
